@@ -100,7 +100,7 @@ package logdb
 
 // ---------------------------------------------------------------- hard-state cache of the sharded store (C04 C09)
 // saveState skips the write only if term, vote AND commit all equal the last persisted state
-//@ func (r *cache) setState [C04 C09]
+//@ func (r *cache) setState [C04 C09 C03]
 //@ requires r.ps != nil
 //@ modifies held(r.mu), entries(r.ps)
 //@ ensures result == !(old(mk(raftio.NodeInfo, shardID, replicaID) in r.ps) && old(r.ps[mk(raftio.NodeInfo, shardID, replicaID)].Term) == st.Term &&
@@ -460,14 +460,20 @@ package logdb
 //@ ensures gIOFailed && !old(gIOFailed) ==> result != nil
 
 // removal / compaction run the store operation inside a callback handed to the entry manager
+// gRangedTo: the index bound the entry manager was last asked to operate up to
+//@ ghost var gRangedTo int
 //@ iface (em entryManager) rangedOp
-//@ modifies gIOFailed
+//@ modifies gIOFailed, gRangedTo
+//@ ghostset gRangedTo := index
 //@ ensures gIOFailed && !old(gIOFailed) ==> result != nil
-//@ func (r *db) removeEntriesTo [C10]
+// C09: removal up to an index hands the entry manager exactly that bound -- in particular the
+// "remove everything" call of RemoveNodeData (index = 2^64-1) must not wrap around to nothing
+//@ func (r *db) removeEntriesTo [C10 C09]
 //@ noframe
 //@ nobounds
-//@ modifies gIOFailed
+//@ modifies gIOFailed, gRangedTo
 //@ ensures gIOFailed && !old(gIOFailed) ==> result != nil
+//@ ensures gRangedTo == index
 //@ func (r *db) compact [C10]
 //@ noframe
 //@ nobounds
